@@ -2,10 +2,11 @@
 EXTENDS DoAllAbs, Json, IOUtils, TLC
 Tr == ndJsonDeserialize(IOEnv.TRACE)
 VARIABLE l
-RecOK(r) == CASE r.k = "doall" -> DoAllOK(r) [] r.k = "regions" -> RegionsOK(r) [] OTHER -> FALSE
+\* (a line cut short by a harness that was killed arrives as a crash record without a kind: rejected)
+RecOK(r) == IF "k" \notin DOMAIN r THEN FALSE ELSE CASE r.k = "doall" -> DoAllOK(r) [] r.k = "regions" -> RegionsOK(r) [] OTHER -> FALSE
 Init == l = 1
 Next == /\ l <= Len(Tr) /\ l' = l + 1
-        /\ IF RecOK(Tr[l]) THEN TRUE ELSE PrintT(<<"REJECT", l, Tr[l].k>>)
+        /\ IF RecOK(Tr[l]) THEN TRUE ELSE PrintT(<<"REJECT", l, IF "k" \in DOMAIN Tr[l] THEN Tr[l].k ELSE "crash">>)
 Spec == Init /\ [][Next]_l
 Consumed == TLCGet("stats").diameter = Len(Tr) + 1
 =============================================================================
